@@ -10,6 +10,56 @@ From PV Require Import MiniPy.Syntax MiniPy.Interp MiniTorch.OpsC17 MiniTorch.Va
 Import ListNotations.
 Local Open Scope string_scope.
 
+(* ---- lists ---- *)
+Lemma map2_map_map : forall A B C D (g : B -> C -> D) (f1 : A -> B) (f2 : A -> C) l,
+  map2 g (map f1 l) (map f2 l) = map (fun x => g (f1 x) (f2 x)) l.
+Proof. induction l as [|x l IH]; cbn; [reflexivity|now rewrite IH]. Qed.
+
+Lemma select_map_map : forall A B (f : A -> B) (p : A -> bool) l, select (map f l) (map p l) = map f (filter p l).
+Proof. induction l as [|x l IH]; cbn; [reflexivity|]. destruct (p x); cbn; now rewrite IH. Qed.
+
+Lemma forallb_ne : forall z e, forallb (fun b : bool => b) (map (zcmp KNe z) e) = negb (existsb (Z.eqb z) e).
+Proof. induction e as [|x e IH]; cbn; [reflexivity|]. now rewrite IH, negb_orb. Qed.
+
+Lemma filter_true_all : forall A (l : list A), filter (fun _ => true) l = l.
+Proof. induction l as [|x l IH]; cbn; [reflexivity|now rewrite IH]. Qed.
+
+Lemma sum_b2z : forall l : list bool,
+  (0 <= fold_right Z.add 0 (map (fun b : bool => if b then 1 else 0) l))%Z
+  /\ negb (fold_right Z.add 0 (map (fun b : bool => if b then 1 else 0) l) =? 0)%Z = existsb (fun b => b) l.
+Proof.
+  induction l as [|b l [IH1 IH2]]; cbn [map fold_right existsb]; [split; [lia|reflexivity]|].
+  destruct b; cbn [orb]; [split; lia|split; [lia|exact IH2]].
+Qed.
+
+(* the mask `(counts.unsqueeze(1) != exclude_ids).all(1)` keeps the runs whose value is not excluded *)
+Lemma select_not_excluded : forall (rs : list (Z * Z)) e,
+  select (map snd rs)
+    (map (forallb (fun b : bool => b)) (map (fun r : list Z => map (zcmp KNe (hd 0%Z r)) e) (map (fun z : Z => [z]) (map fst rs))))
+  = map snd (filter (fun vc : Z * Z => negb (existsb (Z.eqb (fst vc)) e)) rs).
+Proof.
+  intros rs e. rewrite !map_map. rewrite <- select_map_map. f_equal. apply map_ext. intros [v c]. cbn [hd fst].
+  apply forallb_ne.
+Qed.
+
+Lemma sum_ind : forall A (P : A -> bool) l,
+  negb (fold_right Z.add 0 (map (fun x => if P x then 1 else 0) l) =? 0)%Z = existsb P l.
+Proof.
+  intros A P l. rewrite <- (map_map P (fun b : bool => if b then 1%Z else 0%Z)).
+  rewrite (proj2 (sum_b2z (map P l))). induction l as [|x l IH]; cbn; [reflexivity|now rewrite IH].
+Qed.
+
+Lemma existsb_ext' : forall A (f g : A -> bool) l, (forall x, f x = g x) -> existsb f l = existsb g l.
+Proof. intros A f g l H. induction l as [|x l IH]; cbn; [reflexivity|now rewrite H, IH]. Qed.
+
+Lemma hd_slice_to1 : forall x : list Z, hd 0%Z (slice_list None (Some 1%Z) x) = nth 0 x 0%Z.
+Proof. intros [|a x]; [reflexivity|now rewrite slice_to1]. Qed.
+
+Lemma keep_eq : forall x e,
+  forallb (fun b : bool => b) (map (zcmp KNe (hd 0%Z (slice_list None (Some 1%Z) x))) e)
+  = negb (existsb (Z.eqb (row_tok x)) e).
+Proof. intros. rewrite hd_slice_to1. apply forallb_ne. Qed.
+
 #[local] Arguments enc17 : simpl never.
 #[local] Arguments dec17 : simpl never.
 #[local] Arguments unique_consecutive_counts : simpl never.
@@ -61,15 +111,55 @@ Ltac mstep :=
     ?sum_L1, ?nonzero_B1, ?flatten_L2, ?tolist_L1, ?masked_L1, ?get_col_3_0, ?get_col_3_1, ?get_col_3_2.
 Ltac mstmt := open_seq; repeat (progress mstep).
 
-Goal forall fs fn e v, dict_get fs fn = Some (enc_tensor (Vec v)) ->
-  exists st, run_ali_moments fs fn (Some e) = Ok (mom_value (ali_moments (Some e) (Vec v))) st /\ events st = [].
+Theorem ali_moments_tie : forall fs fn excl v,
+  dict_get fs fn = Some (enc_tensor (Vec v)) ->
+  exists st, run_ali_moments fs fn excl = Ok (mom_value (ali_moments excl (Vec v))) st /\ events st = [].
 Proof.
-  intros fs fn e v H. unfold run_ali_moments. eexists. split.
-  - apply run_of_exec_ret. unfold ali_moments_body, ali_moments_vars.
-    mstmt. rewrite H. cbn [bind]. close_stmt. unfold enc_tensor, lten_of.
-    mstmt. close_stmt.
+  intros fs fn excl v H. unfold run_ali_moments.
+  destruct excl as [e|]; cbn [excl_arg]; eexists; (split; [apply run_of_exec_ret|]).
+  - unfold ali_moments_body, ali_moments_vars. cbn [excl_arg].
+    mstmt. rewrite H. cbn [bind]. close_stmt. unfold enc_tensor, lten_of. mstmt. close_stmt.
     open_seq. open_if. repeat (progress mstep). subst_body. mstmt. close_stmt. repeat (progress mstep).
     rewrite if_len_eq by (now rewrite !map_length). repeat (progress mstep). close_stmt.
     mstmt. close_stmt. repeat (progress mstep).
+    rewrite select_not_excluded, runs_rle. reflexivity.
+  - reflexivity.
+  - unfold ali_moments_body, ali_moments_vars. cbn [excl_arg].
+    mstmt. rewrite H. cbn [bind]. close_stmt. unfold enc_tensor, lten_of. mstmt. close_stmt.
+    open_seq. open_if. repeat (progress mstep). subst_body. repeat (progress mstep). close_stmt.
+    mstmt. close_stmt. repeat (progress mstep).
+    rewrite runs_rle. unfold excluded. cbn [negb]. rewrite filter_true_all. reflexivity.
+  - reflexivity.
+Qed.
+
+Ltac rstep := repeat (progress (mstep; rewrite ?slice_all, ?map_map, ?map2_map_map, ?slice_len_to1_3, ?sum_ind;
+                                 rewrite ?if_len_eq by (rewrite ?map_length; reflexivity))).
+Ltac rstmt := open_seq; rstep.
+
+Definition ref_file (d p u s : string) : val := path (VStr d) (VStr ((p ++ u) ++ s)).
+
+(* the (R, 3) case, with an exclude list *)
+Lemma ref_moments_rows_excl : forall fs u d p s e rows,
+  dict_get fs (ref_file d p u s) = Some (enc_tensor (Mat 3 rows)) ->
+  exists st, run_ref_moments fs u d p s (Some e) = Ok (ref_moments_value (ref_moments (Some e) (Mat 3 rows))) st
+             /\ events st = [].
+Proof.
+  intros fs u d p s e rows H. unfold run_ref_moments.
+  assert (X : exists st, exec (ext17 fs) ref_moments_body
+                (mkState (ref_moments_vars (VStr u) (VStr d) (VStr p) (VStr s) (Some e)) [])
+              = Ok (CReturn (ref_moments_value (ref_moments (Some e) (Mat 3 rows)))) st /\ events st = []).
+  2:{ destruct X as [st [X1 X2]]. exists st. split; [apply run_of_exec_ret; exact X1|exact X2]. }
+  unfold ref_moments_body, ref_moments_vars. cbn [excl_arg].
+  remember (ref_moments_value (ref_moments (Some e) (Mat 3 rows))) as RES.
+  rstmt. fold (ref_file d p u s). rewrite H. cbn [bind]. close_stmt. unfold enc_tensor, lten_of.
+  rstmt. close_stmt.
+  open_seq. open_if. rstep. subst_body. rstep. close_stmt.
+  rstmt. close_stmt.
+  rstmt. close_stmt.
+  open_seq. open_if. rstep. subst_body. rstep. close_stmt.
+  rstmt. close_stmt.
+  open_seq. open_if. rstep.
+  match goal with |- context [if existsb ?P rows then _ else _] => destruct (existsb P rows) eqn:B end; subst_body.
+  - rstmt. close_stmt. rstep. close_stmt. rstmt. close_stmt. rstmt. close_stmt. rstep.
     Show.
 Abort.
